@@ -435,7 +435,14 @@ class SparseColumn(FlatColumn):
 
     def __init__(self, **kwargs):
         super().__init__(**kwargs)
-        (self.indices,) = numpy.where(numpy.array(self.values) != self.default_value)
+        default = self.default_value
+        if type(default) in (int, float):
+            # numpy compares a bare Python number in the dtype of the array: against
+            # float32 data the default 0.1 is rounded to float32 first, so elements that
+            # are only close to the default were dropped and came back as the default.
+            # Give the default its own dtype so both sides are promoted before comparing.
+            default = numpy.asarray(default)[()]
+        (self.indices,) = numpy.where(numpy.array(self.values) != default)
         self.values = numpy.array(self.values)[self.indices]
         self.total_length = len(kwargs.get("values", []))  # Store the total length
 
